@@ -231,6 +231,23 @@ def generate(spec):
         mg.annotation_only = True
         genes[CHR_NAMES.index(g.chrom)].append(mg)
 
+    # leftovers of an earlier IsoQuant run in a gene-free stretch at the chromosome end: mono-exonic novel genes whose
+    # transcripts carry the numbers 1..6 with both suffixes (annotation only)
+    if s["pre_ids"] >= 2:
+        for ci in range(n_chr):
+            pos = layout[ci] + 200
+            for num in range(1, 7):
+                for suf in ("nic", "nnic"):
+                    gcount += 1
+                    pg = Gene("novel_gene_%s_%d" % (CHR_NAMES[ci], 100 + 2 * num + (suf == "nnic")), CHR_NAMES[ci],
+                              "+" if num % 2 else "-", [(pos, pos + 150)])
+                    pg.isoforms = [("transcript%d.%s.%s" % (num, CHR_NAMES[ci], suf), [0])]
+                    pg.annotation_only = True
+                    pg.fixed_ids = True
+                    genes[ci].append(pg)
+                    pos += 400
+            layout[ci] = pos + 300
+
     # chromosome lengths: distinct, ranking controlled by chr_order
     base_len = [layout[i] + 300 for i in range(n_chr)]
     order = list(range(n_chr))
@@ -256,7 +273,8 @@ def generate(spec):
             L += 1
         chroms.append(["chrL", [BASES[rs.randrange(4)] for _ in range(L)]])
         names.append("chrL")
-        o = rg.randrange(0, 200)
+        # the long island starts 60..200 bp into a 256-bp coverage bin, so that the small island before it ends in the same bin
+        o = 84 + rg.randrange(116)
         gcount += 1
         l1 = Gene(gene_name(s, gcount), "chrL", "+", [(1000 + o, 1200 + o), (12000 + o, 12200 + o), (24000 + o, 24200 + o), (36000 + o, 36300 + o)])
         l1.isoforms = [(l1.gid + ".t1", [0, 1, 2, 3])]
@@ -265,7 +283,7 @@ def generate(spec):
         l2.isoforms = [(l2.gid + ".t1", [0, 1, 2, 3])]
         gcount += 1
         # small annotated gene sitting in the coverage valley between the two long genes: its single read straddles the split
-        lb = Gene(gene_name(s, gcount), "chrL", "+", [(36350 + o, 36520 + o), (36700 + o, 36960 + o)])
+        lb = Gene(gene_name(s, gcount), "chrL", "+", [(36240 + o, 36410 + o), (36700 + o, 37080 + o)])
         lb.isoforms = [(lb.gid + ".t1", [0, 1])]
         long_genes = [l1, l2, lb]
         genes.append(long_genes)
@@ -538,7 +556,9 @@ def _gtf_lines(truth):
         for g in sorted(by_chr.get(chrom, []), key=lambda g: g.span()):
             gid = g.gid
             a, b = g.span()
-            if s["pre_ids"] and g.gid.endswith(("2", "5")):
+            if getattr(g, "fixed_ids", False):
+                pass
+            elif s["pre_ids"] and g.gid.endswith(("2", "5")):
                 gid = "novel_gene_%s_%d" % (chrom, n + 1)
             n += 1
             g.out_gid = gid
@@ -548,12 +568,17 @@ def _gtf_lines(truth):
             for k, (tid, idx) in enumerate(g.isoforms):
                 ex = [g.exons[i] for i in idx]
                 otid = tid
-                if s["pre_ids"] and k == 0 and first_on_chr and s["pre_ids"] >= 2:
+                if getattr(g, "fixed_ids", False):
+                    pass
+                elif s["pre_ids"] and k == 0 and first_on_chr and s["pre_ids"] >= 2:
                     otid = "transcript:ENSX%05d" % n            # Ensembl-GFF3 style id that merely starts with "transcript"
-                elif s["pre_ids"] and (k == 0 or s["pre_ids"] >= 2):
-                    # ids left by an earlier IsoQuant run: numbers from 1, both suffixes
+                elif s["pre_ids"] and k == 0:
+                    # ids left by an earlier IsoQuant run: numbers from 7 (1..6 are used by the leftovers block when pre_ids >= 2)
                     j = len([t for t in used_tids if t.startswith("transcript") and (".%s." % chrom) in t])
-                    otid = "transcript%d.%s.%s" % (j // 2 + 1, chrom, "nic" if j % 2 == 0 else "nnic")
+                    otid = "transcript%d.%s.%s" % (7 + j // 2, chrom, "nic" if j % 2 == 0 else "nnic")
+                    while otid in used_tids:
+                        j += 1
+                        otid = "transcript%d.%s.%s" % (7 + j // 2, chrom, "nic" if j % 2 == 0 else "nnic")
                 used_tids.add(otid)
                 first_on_chr = False
                 g.out_tids.append(otid)
